@@ -134,7 +134,7 @@ def cases(tier):
                 for pat in range(len(TILT_PATTERNS)):
                     for layout in INCIDENT_LAYOUTS:
                         out.append({'kind': 'tiltmix', 'frame': frame, 'L': L, 'u1': u1, 'u2': 'm', 'g': 9.81, 'gu': 'm/s^2', 'L2': 5.0, 'pattern': pat, 'layout': layout})
-        return out
+        return out + _binrep_cases()
     for frame in range(3):
         for L in (1.0, 10.0):
             for u1 in ('m', 'mm'):
@@ -157,7 +157,7 @@ def cases(tier):
                         for pat in range(len(TILT_PATTERNS)):
                             for layout in INCIDENT_LAYOUTS:
                                 out.append({'kind': 'tiltmix', 'frame': frame, 'L': L, 'u1': u1, 'u2': u2, 'g': g, 'gu': gu, 'L2': L2, 'pattern': pat, 'layout': layout})
-    return out
+    return out + _binrep_cases()
 
 
 # ---------------------------------------------------------------------------------------
@@ -331,6 +331,8 @@ def run_case(case, rec):
         return _run_mixed(case, rec)
     if case['kind'] == 'tiltmix':
         return _run_tiltmix(case, rec)
+    if case['kind'] == 'binrep':
+        return _run_binrep(case, rec)
     frame, L, u1, u2, L2 = case['frame'], case['L'], case['u1'], case['u2'], case['L2']
     rec.cls(('frame_lab', 'frame_cube', 'frame_generic')[frame])
     b1 = _to_frame(frame, _incident(L, case['tilt']))
@@ -500,6 +502,177 @@ def _run_mixed(case, rec):
     W.emit(rec)
 
 
+# ---------------------------------------------------------------------------------------
+# binned-representation family: the same event lists handed over in every way scipp can store them
+
+BR_SIZES = ((0, 1, 3), (2, 1, 4))  # events per pixel of a (row, col) = 2 x 3 detector: empty, single, several
+BR_EVENTS = (1.8, 6.0, 20.0, 0.5, 4.0, 2.5, 9.0, 12.0, 1.0, 3.3, 7.7)  # angstrom, in pixel order
+BR_REPRESENTATIONS = (
+    'fresh_2d', 'fresh_1d', 'transposed_view', 'transposed_both', 'reversed_buffer_2d', 'reversed_buffer_with_gaps_1d',
+    'slice_row', 'slice_col_range', 'slice_pixel_range', 'slice_of_reversed',
+)
+BR_TILTS = ({'s': 0.0}, {'tau': 0.02}, {'tau': -0.3}, {'s': 0.9e-10})
+
+
+def _binrep_cases():
+    return [{'kind': 'binrep', 'frame': frame, 'tilt': tilt, 'rep': rep, 'copy': cp}
+            for frame in (0, 2) for tilt in BR_TILTS for rep in BR_REPRESENTATIONS for cp in (False, True)]
+
+
+def _br_build(rep, frame):
+    """-> (wavelength variable, scattered_beam variable, {index dict (as tuple of (dim, i)) : (events, b2)}, parent buffer or None)."""
+    nrow, ncol = len(BR_SIZES), len(BR_SIZES[0])
+    sizes = [n for row in BR_SIZES for n in row]
+    ev = {}
+    pos = 0
+    for r in range(nrow):
+        for c in range(ncol):
+            n = BR_SIZES[r][c]
+            ev[(r, c)] = list(BR_EVENTS[pos:pos + n])
+            pos += n
+    b2 = {(r, c): _to_frame(frame, (-0.6 + 0.6 * c, -0.5 + 1.2 * r, 4.0 + 0.1 * (r * ncol + c))) for r in range(nrow) for c in range(ncol)}
+    reverse = rep in ('reversed_buffer_2d', 'reversed_buffer_with_gaps_1d', 'slice_of_reversed')
+    gaps = rep in ('reversed_buffer_with_gaps_1d', 'slice_of_reversed')
+    order = list(range(len(sizes)))
+    buf, begin, end = [], [0] * len(sizes), [0] * len(sizes)
+    for n_, flat in enumerate(reversed(order) if reverse else order):
+        if gaps:
+            buf += [99.0 + n_]  # an event no bin refers to
+        r, c = divmod(flat, ncol)
+        begin[flat] = len(buf)
+        buf += ev[(r, c)]
+        end[flat] = len(buf)
+    if gaps:
+        buf += [77.0]
+    data = sc.array(dims=['event'], values=np.asarray(buf, dtype=float), unit='angstrom')
+    one_d = rep in ('fresh_1d', 'reversed_buffer_with_gaps_1d', 'slice_pixel_range', 'slice_of_reversed')
+    if one_d:
+        dims, shape = ['pixel'], [len(sizes)]
+    else:
+        dims, shape = ['row', 'col'], [nrow, ncol]
+    wl = sc.bins(dim='event', data=data,
+                 begin=sc.array(dims=dims, values=np.asarray(begin).reshape(shape), unit=None, dtype='int64'),
+                 end=sc.array(dims=dims, values=np.asarray(end).reshape(shape), unit=None, dtype='int64'))
+    if one_d:
+        b2v = sc.vectors(dims=['pixel'], values=np.asarray([b2[divmod(f, ncol)] for f in order]), unit='m')
+        index = {(('pixel', f),): (ev[divmod(f, ncol)], b2[divmod(f, ncol)]) for f in order}
+    else:
+        b2v = sc.vectors(dims=['row', 'col'], values=np.asarray([[b2[(r, c)] for c in range(ncol)] for r in range(nrow)]), unit='m')
+        index = {(('row', r), ('col', c)): (ev[(r, c)], b2[(r, c)]) for r in range(nrow) for c in range(ncol)}
+    if rep == 'transposed_view':
+        wl = wl.transpose(['col', 'row'])
+    elif rep == 'transposed_both':
+        wl = wl.transpose(['col', 'row'])
+        b2v = b2v.transpose(['col', 'row'])
+    elif rep == 'slice_row':
+        wl, b2v = wl['row', 1], b2v['row', 1]
+        index = {(('col', c),): (ev[(1, c)], b2[(1, c)]) for c in range(ncol)}
+    elif rep == 'slice_col_range':
+        wl, b2v = wl['col', 1:3], b2v['col', 1:3]
+        index = {(('row', r), ('col', c - 1)): (ev[(r, c)], b2[(r, c)]) for r in range(nrow) for c in (1, 2)}
+    elif rep in ('slice_pixel_range', 'slice_of_reversed'):
+        wl, b2v = wl['pixel', 2:5], b2v['pixel', 2:5]
+        index = {(('pixel', f - 2),): (ev[divmod(f, ncol)], b2[divmod(f, ncol)]) for f in (2, 3, 4)}
+    return wl, b2v, index, data
+
+
+def _br_events(var, idx):
+    sel = var
+    for dim, i in idx:
+        sel = sel[dim, i]
+    return [float(x) for x in sel.values.values]
+
+
+def _run_binrep(case, rec):
+    """Binned wavelength in every storage representation; oracle: the dense call per pixel on that pixel's events."""
+    frame, rep, cp = case['frame'], case['rep'], case['copy']
+    rec.cls(('frame_lab', 'frame_cube', 'frame_generic')[frame])
+    rec.cls('binrep_' + rep + ('_copy' if cp else ''))
+    wl, b2v, index, parent = _br_build(rep, frame)
+    if cp:
+        wl = wl.copy()
+    b1 = _to_frame(frame, _incident(12.0, case['tilt']))
+    gvec = _to_frame(frame, (0.0, -9.81, 0.0))
+    b1v, gv = gc.vec(b1, 'm'), gc.vec(gvec, 'm/s^2')
+    dev = abs(float(np.dot(gvec, b1))) / 9.81
+    path = 'generic' if dev > 1.05e-10 else 'orthogonal'
+    rec.cls('binrep_' + path + '_path')
+    W = Worst()
+    sub = {'representation': rep + ('.copy()' if cp else ''), 'path': path}
+    before = {'wavelength': wl.copy(), 'scattered_beam': b2v.copy(), 'incident_beam': b1v.copy(), 'gravity': gv.copy(), 'buffer': parent.values.copy()}
+
+    def unchanged(site):
+        rec.evals += 1
+        ok = (sc.identical(wl, before['wavelength']) and sc.identical(b2v, before['scattered_beam']) and sc.identical(b1v, before['incident_beam'])
+              and sc.identical(gv, before['gravity']) and (cp or np.array_equal(parent.values, before['buffer'])))
+        if not ok:
+            W.add(site, 'modifies_input', 1.0, f'an operand (or the event buffer behind the view) changed during the call ({rep})', **sub)
+
+    def compare(site, name, got_var, dense_fn):
+        for idx, (events, b2) in index.items():
+            rec.states += 1
+            try:
+                got = _br_events(got_var, idx)
+            except Exception as e:  # noqa: BLE001 - result not indexable like the input
+                W.add(site, 'binned_result_layout', 1.0, f'{name}: cannot read bin {dict(idx)} of the result: {type(e).__name__}: {e}', **sub)
+                return
+            if len(got) != len(events):
+                W.add(site, 'binned_result_layout', 1.0, f'{name}: bin {dict(idx)} holds {len(got)} results for {len(events)} events', **sub)
+                continue
+            if not events:
+                rec.cls('binrep_empty_bin')
+                continue
+            rec.cls('binrep_single_event_bin' if len(events) == 1 else 'binrep_multi_event_bin')
+            want = dense_fn(sc.array(dims=['wavelength'], values=events, unit='angstrom'), gc.vec(b2, 'm'))
+            rec.transitions += 1
+            for j, (g, w) in enumerate(zip(got, [float(x) for x in want.values], strict=True)):
+                rec.evals += 1
+                rec.validated += 1
+                rec.nontrivial += 1
+                rec.observe(g)
+                if g == w:
+                    rec.cls('binrep_event_bitwise_dense')
+                elif not abs(g - w) <= 1e-15:
+                    W.add(site, 'event_differs_from_dense_call', abs(g - w) / 1e-15 if math.isfinite(g) else float('inf'),
+                          f'{name} of event #{j} (lambda={events[j]} angstrom) in bin {dict(idx)}: binned call gives {g!r}, the dense call on that event with that pixel gives {w!r}',
+                          bin=[list(x) for x in idx], event=j, lam=events[j], **sub)
+
+    # scattering_angles_with_gravity
+    try:
+        res = bl.scattering_angles_with_gravity(incident_beam=b1v, scattered_beam=b2v, wavelength=wl, gravity=gv)
+    except Exception as e:  # noqa: BLE001 - every representation of the same events must be accepted
+        W.add(SITE, 'raises_for_binned_representation', 1.0, f'{type(e).__name__}: {e}', **sub)
+        res = None
+    rec.transitions += 1
+    unchanged(SITE)
+    if res is not None:
+        for name in ('two_theta', 'phi'):
+            compare(SITE, name, res[name], lambda lam, b2, name=name: bl.scattering_angles_with_gravity(incident_beam=b1v, scattered_beam=b2, wavelength=lam, gravity=gv)[name])
+    # reflectometry variant: the same, or a refusal for every representation
+    try:
+        yz = bl.scattering_angle_in_yz_plane(incident_beam=b1v, scattered_beam=b2v, wavelength=wl, gravity=gv)
+        raised = None
+    except ValueError:
+        raised, yz = 'ValueError', None
+    except Exception as e:  # noqa: BLE001
+        raised, yz = f'{type(e).__name__}: {e}', None
+    rec.transitions += 1
+    unchanged(SITE_YZ)
+    if path == 'generic':
+        if raised == 'ValueError':
+            rec.cls('binrep_yz_refused')
+        elif raised is None:
+            W.add(SITE_YZ, 'accepts_non_perpendicular_beam', 1.0, 'no ValueError for a tilted beam with binned wavelength', **sub)
+        else:
+            W.add(SITE_YZ, 'raises_for_binned_representation', 1.0, raised, **sub)
+    elif raised is not None:
+        W.add(SITE_YZ, 'raises_for_binned_representation', 1.0, raised, **sub)
+    else:
+        rec.cls('binrep_yz_judged')
+        compare(SITE_YZ, 'gamma', yz, lambda lam, b2: bl.scattering_angle_in_yz_plane(incident_beam=b1v, scattered_beam=b2, wavelength=lam, gravity=gv))
+    W.emit(rec)
+
+
 def _run_tiltmix(case, rec):
     """Arrays of incident beams whose elements mix horizontal, slightly and strongly tilted beams of either sign.
 
@@ -652,4 +825,14 @@ RULE = RULE + (' Tilt-mix cases: incident_beam arrays (per pixel / per event / p
                'and without a strongly tilted element, just above threshold + horizontal, all up, all down) x frame x (|b1|, unit); oracle per '
                'element = documented construction + the element-wise 0-d call; the reflectometry variant must refuse iff a 0-d call refuses.'
                % len(TILT_PATTERNS))
-REQUIRED_CLASSES = {'quick': [*REQUIRED_CLASSES, *_TILTMIX_CLASSES], 'thorough': [*REQUIRED_CLASSES, 'dtype_int64', *_TILTMIX_CLASSES]}
+_BINREP_CLASSES = [
+    *('binrep_' + r + c for r in BR_REPRESENTATIONS for c in ('', '_copy')), 'binrep_generic_path', 'binrep_orthogonal_path', 'binrep_empty_bin',
+    'binrep_single_event_bin', 'binrep_multi_event_bin', 'binrep_event_bitwise_dense', 'binrep_yz_refused', 'binrep_yz_judged',
+]
+RULE = RULE + (' Binned-representation cases (both tiers): the event lists of a 2 x 3 detector (0, 1, 3, 2, 1, 4 events) handed over as %d representations '
+               '(fresh 2-d / 1-d, transposed view with and without transposed beams, bins stored back-to-front in the buffer, with unreferenced events between '
+               'bins, slice of a row, range slices, slice of the reversed buffer) each as view and as .copy(), x 4 tilts (both code paths) x 2 frames, for both '
+               'kernels; oracle: every event equals the dense call on that event with its pixel (bitwise or 1e-15), no operand or parent buffer modified, '
+               'the reflectometry variant refuses tilted beams in every representation.' % len(BR_REPRESENTATIONS))
+BOUND = {k: v + '; binned representations: %d representations x {view, copy} x 4 tilts x 2 frames' % len(BR_REPRESENTATIONS) for k, v in BOUND.items()}
+REQUIRED_CLASSES = {'quick': [*REQUIRED_CLASSES, *_TILTMIX_CLASSES, *_BINREP_CLASSES], 'thorough': [*REQUIRED_CLASSES, 'dtype_int64', *_TILTMIX_CLASSES, *_BINREP_CLASSES]}
